@@ -76,6 +76,30 @@ def grain_data(case, gidx, variant):
     if variant == 2:
         # a pattern-filled grain: its whole compressed stream (plus marker) fits inside one sector
         return bytes([raw[0]]) * gsz
+    if variant >= 1000:
+        # a grain whose compressed stream is (as close as possible to) variant-1000 bytes long: the spill-over
+        # boundary of the 4- and 12-byte grain markers (stream + marker around one sector)
+        target = variant - 1000
+        lo, hi = 0, gsz
+        best = bytes(gsz)
+        while lo <= hi:
+            k = (lo + hi) // 2
+            cand = raw[:k] + bytes(gsz - k)
+            n = len(zlib.compress(cand, 6))
+            if n == target:
+                return cand
+            if n < target:
+                best = cand
+                lo = k + 1
+            else:
+                hi = k - 1
+        # fine tune byte by byte from the largest not-too-long candidate
+        k = len(best.rstrip(b"\x00"))
+        for kk in range(k, min(gsz, k + 40)):
+            cand = raw[:kk] + bytes(gsz - kk)
+            if len(zlib.compress(cand, 6)) >= target:
+                return cand
+        return best
     b = bytearray(gsz)
     b[0::5] = raw[0::5]
     return bytes(b)
@@ -316,7 +340,7 @@ def gen_sparse(rng, tier, kind):
             if place == "dup" and prev is not None and rng.chance(0.3):
                 phys[g] = phys[prev]
                 continue
-            variant = rng.weighted([(0, 11), (1, 5), (2, 4)])
+            variant = rng.weighted([(0, 9), (1, 4), (2, 4), (1000 + rng.randint(494, 516), 4 if gs >= 2 else 0)])
             hdr, cdata, _ = compressed_grain(c | {"grain_size": gs}, g, variant)
             need = (len(hdr) + len(cdata) + SECTOR - 1) // SECTOR
             if pitch_gs and need > gs:
